@@ -345,26 +345,41 @@ let judge_apply f =
      caller's (C09: a later call changed an earlier outcome; C15: that earlier output is no longer the text) *)
   if get f "prevbroken" = "1" then begin
     add "C09" (F "the bytes returned by the previous Apply call were overwritten by this call");
+    add "C01" (F "the document returned by the previous Apply call was overwritten by this call (no longer the RFC result)");
+    add "C05" (F "the document returned by the previous Apply call was overwritten by this call (members and literals lost)");
     add "C15" (F "the bytes returned by the previous Apply call were overwritten by this call (no longer the output text)")
   end;
   out_line id "apply" (List.rev !vs) !note
 
 (* ---------- equal ---------- *)
+(* a decoded value with repeated member names reduced to what a Go map holds: one entry per name
+   (den already gives every occurrence the last value), hereditarily *)
+let rec dedup_o (j : ojson) : ojson =
+  match j with
+  | OArr l -> OArr (List.map dedup_o l)
+  | OObj ms ->
+    let rec go seen = function
+      | [] -> []
+      | (k, v) :: r -> if List.exists (fun k' -> bseq k k') seen then go seen r else (k, dedup_o v) :: go (k :: seen) r in
+    OObj (go [] ms)
+  | _ -> j
+
 let judge_equal f =
   let id = get f "id" in
   let a = unhex (get f "a") and b = unhex (get f "b") in
   let st = get f "status" and st2 = get f "status2" in
   let res = get f "res" = "1" and res2 = get f "res2" = "1" in
   let c04 = if st <> "ok" || st2 <> "ok" then F (st ^ "/" ^ st2) else P in
+  (* repeated member names: the value a text denotes is what decoding into a Go map gives (last value
+     wins, one member per name), which is what dedup_o (den t) is *)
   let spec = match parse_s a, parse_s b with
-    | Some ta, Some tb -> jeq (den ta) (den tb) && jeq (den tb) (den ta)
+    | Some ta, Some tb -> let x = dedup_o (den ta) and y = dedup_o (den tb) in jeq x y && jeq y x
     | _ -> false in
   let alias = match parse_s a, parse_s b with Some ta, Some tb -> has_number_alias [ta; tb] | _ -> false in
   let model = api_equal (bytes_of_string a) (bytes_of_string b) in
   let c06 =
     if st <> "ok" || st2 <> "ok" then F "panic"
     else if alias then S "number-alias"
-    else if (match parse_s a, parse_s b with Some ta, Some tb -> not (tnodup ta && tnodup tb) | _ -> false) then S "duplicate-names"
     else if res <> spec then F (Printf.sprintf "Equal=%b, structural equality=%b" res spec)
     else if res <> res2 then F "not symmetric"
     else P in
